@@ -45,7 +45,7 @@ COMPONENTS = {"real": ["wormhole._hints", "wormhole.transit", "wormhole."
 
 
 def configs(tier):
-    return [{"half": "transit"}]
+    return [{"half": "transit"}, {"half": "dilation"}]
 
 
 def run_transit(seed, tape, opts):
@@ -104,10 +104,12 @@ def run_transit(seed, tape, opts):
                 "connect() -> %r; hints %s" % (f.value if f else None,
                                                json.dumps(hints)[:300]))
         for etype, text, why in w.log.errors:
-            if etype in ("TypeError", "AttributeError", "KeyError",
-                         "ValueError", "AssertionError"):
-                Vio("C20.transit.logged.%s" % etype, "handling peer hints "
+            if why and str(why).startswith("sim: exception"):
+                Vio("C20.transit.escaped.%s" % etype, "handling peer hints "
                     "never raises", "%s: %s" % (etype, text[:200]))
+            elif etype in ("TypeError", "AttributeError", "KeyError",
+                           "ValueError"):
+                sim.note("probe.logged_by_errback." + etype)
     # round trip of our own hints
     if not viol:
         mine = w.hints_of(P_)
